@@ -129,7 +129,7 @@ def judge(rep: Report, case: dict, im: dict, mo: dict, label: str, exact: bool) 
 
 def run(tier: str, seed: int, rep: Report, model: Model) -> dict:
     rnd = rng_for("C01", seed)
-    n = depth(tier, 1200, 12000)
+    n = depth(tier, 1200, 40000)
     rep.rule = ("contexts generated from a chosen assignment (1-4 parameters, tuples, optionals, return, provider; every dim form; markers; "
                 "sizes in {0,1,2,3,5,7}) kept conforming, with one perturbation, or with several; distinct = distinct (signature, values); "
                 "non-trivial = at least two annotated tensors")
@@ -158,7 +158,7 @@ def run(tier: str, seed: int, rep: Report, model: Model) -> dict:
             labels.append(("multi_fault", False))
     # directed: contexts in which a named expression meets a name that is already bound (two demands on one axis),
     # conforming and with every single-axis resize
-    for base in GC.rebound_cases(rnd, depth(tier, 15, 150)):
+    for base in GC.rebound_cases(rnd, depth(tier, 15, 400)):
         cases.append(base)
         labels.append(("rebound_conforming", True))
         for c in GC.all_resizes(base, alts=1):
